@@ -14,13 +14,16 @@ import (
 	"math/rand"
 	"os"
 	"strconv"
+	"strings"
 
 	"github.com/fogfish/golem/trait/seq"
 )
 
 type Pred struct {
-	K string `json:"k"` // lt | ne | par | true | false
-	C int    `json:"c,omitempty"`
+	K  string `json:"k"` // lt | ne | par | true | false | mod (x mod c == r) | in (x is one of xs)
+	C  int    `json:"c,omitempty"`
+	R  int    `json:"r,omitempty"`
+	Xs []int  `json:"xs,omitempty"`
 }
 
 type Mapc struct {
@@ -30,7 +33,7 @@ type Mapc struct {
 }
 
 type Node struct {
-	O  string `json:"o"` // from slice arg shift takew dropw filter map plus join joine
+	O  string `json:"o"` // from slice arg shift takew dropw filter map plus join joine when
 	V  int    `json:"v,omitempty"`
 	Xs []int  `json:"xs,omitempty"`
 	P  *Pred  `json:"p,omitempty"`
@@ -76,6 +79,20 @@ func pred(p *Pred) func(int) bool {
 		return func(int) bool { return true }
 	case "false":
 		return func(int) bool { return false }
+	case "mod":
+		if p.C <= 0 {
+			panic("pred code mod: modulus must be positive")
+		}
+		return func(x int) bool { return emod(x, p.C) == p.R }
+	case "in":
+		return func(x int) bool {
+			for _, y := range p.Xs {
+				if x == y {
+					return true
+				}
+			}
+			return false
+		}
 	}
 	panic("pred code " + p.K)
 }
@@ -201,6 +218,12 @@ func build(t *Node, x int) seq.Seq[int] {
 		return seq.Join(build(t.S, x), func(a int) seq.Seq[int] { work++; return f(a) })
 	case "joine":
 		return seq.Join(build(t.S, x), func(a int) seq.Seq[int] { return build(t.B, a) })
+	case "when":
+		// the conditional body of a join function: nil for the arguments the guard rejects
+		if !pred(t.P)(x) {
+			return nil
+		}
+		return build(t.S, x)
 	}
 	panic("op " + t.O)
 }
@@ -330,6 +353,78 @@ func bodies() []*Node {
 	}
 }
 
+// ------------------------------------------------------------------ join functions answering nil for SOME elements
+//
+// Join(outer, func(x) { if !guard(x) { return nil }; return <stopper> }): the body is an expression that STOPS
+// EARLY - TakeWhile / DropWhile / Filter with a non-monotone predicate over a slice where the predicate fails in
+// the middle and holds again later - and its neighbours (before, after, several in a row, at the end) are nil.
+
+func md(m, r int) *Pred  { return &Pred{K: "mod", C: m, R: r} }
+func in(xs ...int) *Pred { return &Pred{K: "in", Xs: xs} }
+
+// which elements of an outer slice over 1..4 get a body; the others get nil
+var guards = []*Pred{
+	{K: "ne", C: 2},                    // nil between two bodies
+	{K: "ne", C: 1},                    // nil first
+	{K: "lt", C: 3},                    // nil for the last elements (several in a row, at the end)
+	in(1, 4),                           // several nil in a row between two bodies
+	in(3),                              // nil before (several in a row) and after
+	in(4),                              // only the last element has a body
+	{K: "par", C: 1}, {K: "par", C: 0}, // alternating
+	md(3, 1),
+	{K: "false"}, {K: "true"},
+}
+
+// non-monotone predicates
+var holes = []*Pred{{K: "par", C: 0}, {K: "par", C: 1}, md(3, 1), md(3, 0), in(1, 2, 5, 6, 9)}
+
+func inner() []*Node {
+	return []*Node{sh(0, 2, 1, 4), sh(0, 1, 2, 3), sl(1, 3, 2, 5), sh(0, 3, -1, 6, 2)}
+}
+
+func un(o string, p *Pred, s *Node) *Node { return &Node{O: o, P: p, S: s} }
+func plus(l, r *Node) *Node               { return &Node{O: "plus", L: l, R: r} }
+func when(p *Pred, s *Node) *Node         { return &Node{O: "when", P: p, S: s} }
+func joine(b, s *Node) *Node              { return &Node{O: "joine", B: b, S: s} }
+
+func stoppers() []*Node {
+	out := []*Node{}
+	for _, src := range inner() {
+		for _, o := range []string{"takew", "dropw", "filter"} {
+			for _, p := range holes {
+				out = append(out, un(o, p, src))
+			}
+		}
+	}
+	arg := &Node{O: "arg"}
+	for _, src := range inner()[:2] {
+		for _, p := range holes[:3] {
+			base := un("takew", p, src)
+			out = append(out,
+				plus(base, arg), plus(arg, base), plus(base, un("filter", holes[3], sh(1, 3, 6))),
+				&Node{O: "map", M: &Mapc{K: "aff", A: 1, B: 10}, S: base},
+				un("takew", &Pred{K: "lt", C: 6}, base), un("filter", &Pred{K: "ne", C: 3}, base),
+				un("dropw", holes[1], un("filter", p, src)),
+				&Node{O: "join", J: "repl", S: base},
+				joine(when(holes[1], sh(0, 1)), base),
+				joine(when(&Pred{K: "ne", C: 3}, un("takew", p, sh(0, 2, 1))), sh(0, 1, 2)))
+		}
+	}
+	return out
+}
+
+func nilJoins() []*Node {
+	out := []*Node{}
+	for _, outer := range []*Node{sl(1, 2, 3), sl(1, 2, 3, 4), sl(2, 1, 4, 3)} {
+		for _, g := range guards {
+			for _, b := range stoppers() {
+				out = append(out, joine(when(g, b), outer))
+			}
+		}
+	}
+	return out
+}
+
 func clone(t *Node) *Node {
 	if t == nil {
 		return nil
@@ -390,7 +485,30 @@ func (g *gen) slice() []int {
 	return xs
 }
 
+// a predicate that may fail in the middle of a slice and hold again later
+func (g *gen) hole() *Pred {
+	switch g.rng.Intn(6) {
+	case 0:
+		return &Pred{K: "par", C: g.rng.Intn(2)}
+	case 1, 2:
+		m := 2 + g.rng.Intn(3)
+		return md(m, g.rng.Intn(m))
+	case 3, 4:
+		xs := []int{}
+		for v := -3; v < 14; v++ {
+			if g.rng.Intn(2) == 0 {
+				xs = append(xs, v)
+			}
+		}
+		return in(xs...)
+	}
+	return &Pred{K: "ne", C: g.val()}
+}
+
 func (g *gen) pred() *Pred {
+	if g.rng.Intn(4) == 0 {
+		return g.hole()
+	}
 	switch g.rng.Intn(8) {
 	case 0, 1:
 		return &Pred{K: "lt", C: g.val()}
@@ -448,8 +566,76 @@ func (g *gen) tree(d int, inJoin bool) *Node {
 		if bd > d-1 {
 			bd = d - 1
 		}
-		return &Node{O: "joine", B: g.tree(bd, true), S: g.tree(d-1, inJoin)}
+		b := g.tree(bd, true)
+		if g.rng.Intn(2) == 0 {
+			b = when(g.pred(), b)
+		}
+		return &Node{O: "joine", B: b, S: g.tree(d-1, inJoin)}
 	}
+}
+
+// a slice of n..n+2 values
+func (g *gen) sliceN(n int) []int {
+	xs := make([]int, n+g.rng.Intn(3))
+	for i := range xs {
+		xs[i] = g.val()
+	}
+	return xs
+}
+
+// an expression over the join argument that stops early: TakeWhile / DropWhile / Filter with a non-monotone
+// predicate over a slice of 3..5 elements, composed d times with further operators
+func (g *gen) stopper(d int) *Node {
+	if d == 0 {
+		var src *Node
+		if g.rng.Intn(3) == 0 {
+			src = sl(g.sliceN(3)...)
+		} else {
+			src = sh(g.sliceN(3)...)
+		}
+		return un([]string{"takew", "takew", "dropw", "filter"}[g.rng.Intn(4)], g.hole(), src)
+	}
+	b := g.stopper(d - 1)
+	switch g.rng.Intn(8) {
+	case 0:
+		return plus(b, g.tree(0, true))
+	case 1:
+		return plus(g.tree(0, true), b)
+	case 2:
+		return plus(b, g.stopper(0))
+	case 3:
+		return &Node{O: "map", M: g.mapc(), S: b}
+	case 4:
+		return un([]string{"takew", "dropw", "filter"}[g.rng.Intn(3)], g.pred(), b)
+	case 5:
+		return &Node{O: "join", J: joins[g.rng.Intn(2)], S: b}
+	case 6:
+		return joine(when(g.pred(), g.stopper(0)), b)
+	}
+	return when(g.pred(), b)
+}
+
+// Join(outer, x -> guard(x) ? stopper : nil), bare or inside a small context
+func (g *gen) nilJoin() *Node {
+	outer := sl(g.sliceN(2)...)
+	var guard *Pred
+	if g.rng.Intn(2) == 0 {
+		guard = g.hole()
+	} else {
+		guard = g.pred()
+	}
+	t := joine(when(guard, g.stopper(g.rng.Intn(3))), outer)
+	switch g.rng.Intn(8) {
+	case 0:
+		return plus(t, g.tree(0, false))
+	case 1:
+		return plus(g.tree(0, false), t)
+	case 2:
+		return un([]string{"takew", "dropw", "filter"}[g.rng.Intn(3)], g.pred(), t)
+	case 3:
+		return joine(when(g.pred(), g.stopper(0)), t)
+	}
+	return t
 }
 
 func (g *gen) mode(n int) Mode {
@@ -473,7 +659,7 @@ func main() {
 	emit := func(t *Node, m Mode, tag string) int {
 		c := run(clone(t), m)
 		c.Gen = tag
-		if tag == "rnd" && (c.Why == "no end" || len(c.Obs) > maxObs || work > maxWork) {
+		if strings.HasPrefix(tag, "rnd") && (c.Why == "no end" || len(c.Obs) > maxObs || work > maxWork) {
 			return -1
 		}
 		if err := enc.Encode(c); err != nil {
@@ -553,8 +739,39 @@ func main() {
 		emit(t, drain, "exh2s")
 	}
 
-	// random trees, depth 3..6 (thorough: ..7, longer slices)
+	// join functions answering nil for some elements and an early-stopping expression for the others:
+	// every (outer slice, guard, stopper) of the alphabet, a sample of them inside a further operator
 	g := &gen{rng: rng, maxLen: 3}
+	for _, t := range nilJoins() {
+		emit(t, drain, "nilj")
+		if thorough || rng.Intn(4) == 0 {
+			emit(t, cbs[rng.Intn(len(cbs))], "nilj")
+		}
+		if thorough || rng.Intn(8) == 0 {
+			us := unary(t)
+			emit(us[rng.Intn(len(us))], drain, "nilj2")
+			b := l0[rng.Intn(len(l0))]
+			if rng.Intn(2) == 0 {
+				emit(plus(t, b), drain, "nilj2")
+			} else {
+				emit(plus(b, t), drain, "nilj2")
+			}
+		}
+	}
+	nn := 3000
+	if thorough {
+		nn = 40000
+	}
+	limit = maxObs + 1
+	for i := 0; i < nn; i++ {
+		t := g.nilJoin()
+		k := emit(t, drain, "rndnil")
+		if k >= 0 && i%4 == 0 {
+			emit(t, g.mode(k), "rndnil")
+		}
+	}
+
+	// random trees, depth 3..6 (thorough: ..7, longer slices)
 	n, maxd := 4000, 6
 	if thorough {
 		g.maxLen = 6
